@@ -243,3 +243,39 @@ def alternatives(rd, node, expr, keep=(), depth=12):
     if len(ds) > 1 and all(d.how == 'assign' and d.value is not None for d in ds):
       return [rd.expand(d.node, d.value, depth=depth, keep=keep)[0] for d in sorted(ds, key=lambda d_: d_.node.id)]
   return [rd.expand(node, expr, depth=depth, keep=keep)[0]]
+
+
+def order_blind(expr, name):
+  """Every read of the collection `name` in `expr` goes through an operation that does not see the order of its elements
+  (set(), frozenset(), len(), sorted(), membership tests, isin(), set algebra): the value of `expr` is then the same for
+  every permutation of the collection.  Reads of the form `name is None` say nothing about order and are ignored.
+  False when some read is order-sensitive; None when `expr` does not read `name` at all."""
+  par = {}
+  for x_ in ast.walk(expr):
+    for ch_ in ast.iter_child_nodes(x_):
+      par[id(ch_)] = x_
+  seen = False
+  for x_ in ast.walk(expr):
+    if not (isinstance(x_, ast.Name) and x_.id == name):
+      continue
+    p0_ = par.get(id(x_))
+    if isinstance(p0_, ast.Compare) and len(p0_.ops) == 1 and isinstance(p0_.ops[0], (ast.Is, ast.IsNot)) and is_const(p0_.comparators[0], None):
+      continue
+    seen = True
+    cur, blind = x_, False
+    while id(cur) in par:
+      p_ = par[id(cur)]
+      if isinstance(p_, ast.Call) and isinstance(p_.func, ast.Name) and p_.func.id in ('set', 'frozenset', 'len', 'sorted', 'Counter', 'sum', 'min', 'max') and cur in p_.args:
+        blind = True
+      if isinstance(p_, ast.Call) and isinstance(p_.func, ast.Attribute) and p_.func.attr in ('isin', 'issubset', 'issuperset', 'isdisjoint', 'difference', 'intersection', 'union',
+                                                                                               'symmetric_difference') and cur in p_.args:
+        blind = True
+      if isinstance(p_, ast.Compare) and any(isinstance(o_, (ast.In, ast.NotIn)) for o_ in p_.ops) and cur in p_.comparators:
+        blind = True
+      if isinstance(p_, (ast.GeneratorExp, ast.ListComp, ast.SetComp)) and isinstance(par.get(id(p_)), ast.Call) \
+          and norm(par[id(p_)].func) in ('all', 'any', 'set', 'frozenset', 'sum', 'len'):
+        blind = True
+      cur = p_
+    if not blind:
+      return False
+  return True if seen else None
